@@ -211,6 +211,8 @@ void Simulate::ram_write16(uint32_t address, uint16_t data)
   {
     serial_write16(data);
   }
+
+  if (address == break_io) { exit(data); }
 }
 
 void Simulate::ram_write32(uint32_t address, uint32_t data)
@@ -221,6 +223,8 @@ void Simulate::ram_write32(uint32_t address, uint32_t data)
   {
     serial_write32(data);
   }
+
+  if (address == break_io) { exit(data); }
 }
 
 uint8_t Simulate::ram_read8(uint32_t address)
